@@ -23,6 +23,7 @@ void myth_verif_spin(int id);
 void myth_verif_idle(void);
 void myth_verif_ev(const char *name, int n, ...);
 void myth_verif_evz(const char *name, int n, ...);
+void myth_verif_evzk(const char *name, int k, int n, ...);
 void myth_verif_evlock(const char *name, const void *lock);
 long myth_verif_id(int ns, const void *p);
 long myth_verif_id_alias(int ns, const void *key, const void *alias);
@@ -79,6 +80,11 @@ void myth_verif_fspin(const char *label);
    (a failed pop/steal attempt of an idle scheduler loop changes nothing) */
 #define MYTH_VERIF_EVZ2(n,a,b) myth_verif_evz(n, 2, (long)(a), (long)(b))
 #define MYTH_VERIF_EVZ3(n,a,b,c) myth_verif_evz(n, 3, (long)(a), (long)(b), (long)(c))
+/* queue events carry the number of entries (top - base) left in the queue as an additional last argument;
+   the Z forms are dropped when the worker is idle and the result (second-to-last argument) is 0 */
+#define MYTH_VERIF_EVQ2(n,a,b,len) myth_verif_ev(n, 3, (long)(a), (long)(b), (long)(len))
+#define MYTH_VERIF_EVQZ2(n,a,b,len) myth_verif_evzk(n, 2, 3, (long)(a), (long)(b), (long)(len))
+#define MYTH_VERIF_EVQZ3(n,a,b,c,len) myth_verif_evzk(n, 3, 4, (long)(a), (long)(b), (long)(c), (long)(len))
 /* logged only for locks that were given an id with VL() (descriptor locks, user spin locks) */
 #define MYTH_VERIF_EVLOCK(n,l) myth_verif_evlock(n, (const void*)(l))
 #define MYTH_VERIF_CHOOSE(lo,hi) myth_verif_choose((lo),(hi))
@@ -105,6 +111,9 @@ void myth_verif_fspin(const char *label);
 #define MYTH_VERIF_EV6(n,a,b,c,d,e,f) ((void)0)
 #define MYTH_VERIF_EVZ2(n,a,b) ((void)0)
 #define MYTH_VERIF_EVZ3(n,a,b,c) ((void)0)
+#define MYTH_VERIF_EVQ2(n,a,b,len) ((void)0)
+#define MYTH_VERIF_EVQZ2(n,a,b,len) ((void)0)
+#define MYTH_VERIF_EVQZ3(n,a,b,c,len) ((void)0)
 #define MYTH_VERIF_EVLOCK(n,l) ((void)0)
 #define MYTH_VERIF_CHOOSE(lo,hi) (-1)
 #define MYTH_VERIF_CLOCK(ts) (0)
